@@ -37,6 +37,10 @@ pub mod hist_config;
 #[path = "/verif/harness/hist_index.rs"]
 pub mod hist_index;
 
+#[cfg(all(not(kani), test))]
+#[path = "/verif/harness/hist_user.rs"]
+pub mod hist_user;
+
 #[path = "/verif/harness/c05.rs"]
 pub mod c05;
 
@@ -85,6 +89,10 @@ mod replay_entry {
         }
         if module == "c11actor" {
             super::hist_naming::replay_file();
+            return;
+        }
+        if module == "user" {
+            super::hist_user::replay_file();
             return;
         }
         if module == "c11index" {
